@@ -740,10 +740,12 @@ func (vm *VM) startGoroutine() bool {
 	nvm := create(vm.env)
 	vm.pc++
 	off := vm.fn.Body[vm.pc]
-	copy(nvm.regs.int, vm.regs.int[vm.fp[0]+Addr(off.Op):vm.fp[0]+127])
-	copy(nvm.regs.float, vm.regs.float[vm.fp[1]+Addr(off.A):vm.fp[1]+127])
-	copy(nvm.regs.string, vm.regs.string[vm.fp[2]+Addr(off.B):vm.fp[2]+127])
-	copy(nvm.regs.general, vm.regs.general[vm.fp[3]+Addr(off.C):vm.fp[3]+127])
+	// Copy the registers that hold the arguments, without going beyond the
+	// end of the stacks.
+	copy(nvm.regs.int, vm.regs.int[vm.fp[0]+Addr(off.Op):min(int(vm.fp[0])+127, len(vm.regs.int))])
+	copy(nvm.regs.float, vm.regs.float[vm.fp[1]+Addr(off.A):min(int(vm.fp[1])+127, len(vm.regs.float))])
+	copy(nvm.regs.string, vm.regs.string[vm.fp[2]+Addr(off.B):min(int(vm.fp[2])+127, len(vm.regs.string))])
+	copy(nvm.regs.general, vm.regs.general[vm.fp[3]+Addr(off.C):min(int(vm.fp[3])+127, len(vm.regs.general))])
 	verifYield(vm, VerifSiteGoBefore)
 	go nvm.runFunc(fn, vars)
 	verifYield(vm, VerifSiteGoAfter)
